@@ -79,7 +79,7 @@ func headerString(h http.Header) string {
 
 var headerSets = [][][2]string{
 	{{"X-Single", "one"}},
-	{{"X-Single", "one"}, {"X-Multi", "a"}, {"X-Multi", "b"}, {"Accept", "*/*"}},
+	{{"X-Single", "one"}, {"X-Multi", "a"}, {"X-Multi", "b"}, {"Accept", "*/*"}, {"Authorization", "Bearer s3cr3t"}, {"Proxy-Authorization", "Basic eHl6"}},
 	{{"x-single", "one"}, {"X-MULTI", "a"}, {"x-Multi", "b"}, {"Cookie", "k=v; k2=v2"}},
 }
 
@@ -158,6 +158,9 @@ func runC06(c c06case, rep *lib.Report) {
 	if c.mem == 0 {
 		opts = opts[1:]
 	}
+	if verboseRun {
+		opts = append(opts, buffer.Verbose(true), buffer.Logger(lib.FormatLogger{}))
+	}
 	b, err := buffer.New(h, opts...)
 	if err != nil {
 		rep.DistrustF("buffer.New: %v", err)
@@ -166,7 +169,7 @@ func runC06(c c06case, rep *lib.Report) {
 	rec := lib.Serve(b, req)
 	rep.Evaluations++
 	what := func() map[string]any {
-		return map[string]any{"engine": "enum", "part": "c06", "mem": c.mem, "size": c.size, "chunk": c.chunk, "method": c.method, "headers": c.hs, "k": c.k, "scripts": fmt.Sprint(c.scripts), "case": c.String()}
+		return map[string]any{"engine": "enum", "part": "c06", "mem": c.mem, "size": c.size, "chunk": c.chunk, "method": c.method, "headers": c.hs, "k": c.k, "scripts": fmt.Sprint(c.scripts), "case": c.String(), "verbose": verboseRun}
 	}
 	framing := "content-length"
 	if c.chunk > 0 {
@@ -267,8 +270,8 @@ func c06cases(tier string) []c06case {
 func RunC06(tier string, sh lib.Shard, rep *lib.Report) {
 	cases := c06cases(tier)
 	rep.Bounds["cases"] = len(cases)
-	rep.Rule = "full product memory threshold {8,64,default 1MiB} x body length {0,1,mem-1,mem,mem+1,3mem, ~1MiB(+)} x framing {Content-Length, chunked 1/7/whole, unknown length without chunking (HTTP/2 stream)} x method x header set x retry depth {1,2,3} x per-failed-attempt script (bytes consumed {0,half,all} x 8 request mutations); request parsed by http.ReadRequest from raw bytes, real buffer.ServeHTTP; every invocation's method/URL/headers/ContentLength/TransferEncoding/body compared with the client's original; non-trivial = cases with at least one retry or a spilled body"
-	rep.Require("requests_spilled_to_disk", "cases_with_retries")
+	rep.Rule = "full product memory threshold {8,64,default 1MiB} x body length {0,1,mem-1,mem,mem+1,3mem, ~1MiB(+)} x framing {Content-Length, chunked 1/7/whole, unknown length without chunking (HTTP/2 stream)} x method x header set x retry depth {1,2,3} x per-failed-attempt script (bytes consumed {0,half,all} x 8 request mutations); request parsed by http.ReadRequest from raw bytes, real buffer.ServeHTTP; every invocation's method/URL/headers/ContentLength/TransferEncoding/body compared with the client's original; every fifth case again with Verbose(true) and a formatting logger; non-trivial = cases with at least one retry or a spilled body"
+	rep.Require("requests_spilled_to_disk", "cases_with_retries", "cases_rerun_verbose")
 	for i, c := range cases {
 		if !sh.Mine(i) {
 			continue
@@ -281,6 +284,13 @@ func RunC06(tier string, sh lib.Shard, rep *lib.Report) {
 		if i%9973 == 0 {
 			rep.Sample(4, c.String())
 		}
+		if i%5 == 0 {
+			// the same case with Verbose(true) and a logger that formats its arguments (request dumps)
+			verboseRun = true
+			runC06(c, rep)
+			verboseRun = false
+			rep.Count("cases_rerun_verbose")
+		}
 	}
 }
 
@@ -290,7 +300,9 @@ func ReplayC06(rp map[string]any) (bool, string) {
 		for _, c := range c06cases(tier) {
 			if c.String() == want {
 				rep := lib.NewReport("C06", "replay")
+				verboseRun = rp["verbose"] == true
 				runC06(c, rep)
+				verboseRun = false
 				if len(rep.Violations) > 0 {
 					return true, rep.Violations[0].Key + " :: " + rep.Violations[0].Detail
 				}
